@@ -203,7 +203,7 @@ def _validate(ctx, cfg, rows, path, name, timeout):
 
 def _design_main(ctx):
     cfg = ctx.pick("Aliases_mc.cfg", "Aliases_mc_thorough.cfg")
-    if ctx.selftest:
+    if ctx.selftest or ctx.replay:
         cfg = "Aliases_mc_tiny.cfg"
     mc = tlc.run(ctx, "Aliases", cfg, coverage=True, workers=WORKERS, timeout=ctx.pick(1800, 7200), heap=ctx.pick("6g", "10g"))
     if not mc.ok:
@@ -215,7 +215,7 @@ def _design_main(ctx):
 
 def _design_small(ctx):
     extra = {}
-    if ctx.selftest:
+    if ctx.selftest or ctx.replay:
         return extra, None
     # finding F1 at design level: with a fault at the SECOND backend operation of prefer-aliases the spec (a faithful
     # transcription of doPreferAliases) has a counterexample to (a)/(d); TLC must find it, otherwise the spec no longer
